@@ -82,6 +82,11 @@ def case_pp(ctx, cfg):
 # ---------------------------------------------------------------------------------------------------
 
 
+# nearly (1e-3 .. 1e-4 rad) but not exactly axis-parallel / diagonal lines and planes with exact integer coordinates
+NEAR_LINES2 = [(1000, 1, 0), (1000, 1, -500), (1, 1000, 3), (1000, -1, 2), (1000, 999, 1), (-999, 1000, 0), (10000, 1, 7)]
+NEAR_PLANES = [(1000, 1, 0, 0), (1000, 1, 0, -300), (1, 0, 1000, 2), (0, 1000, -1, 1), (1000, 999, 1, 0), (1, 1, 1000, -5)]
+
+
 def enum_ph(tier, seed):
     for h in lattice(3, 2):
         if any(h[:2]):
@@ -89,6 +94,10 @@ def enum_ph(tier, seed):
     for h in lattice(4, 1):
         if any(h[:3]):
             yield (3, h)
+    for h in NEAR_LINES2:
+        yield (2, h)
+    for h in NEAR_PLANES:
+        yield (3, h)
 
 
 @family("C09", "dist_point_hyperplane", enum_ph)
@@ -409,6 +418,10 @@ def enum_angle(tier, seed):
         yield ("planes", n_)
     for u in lattice(3, 1)[:: (1 if tier == "thorough" else 2)]:
         yield ("lines3d", u)
+    for h in NEAR_LINES2[:5]:
+        yield ("lines2d", h)
+    for h in NEAR_PLANES[:4]:
+        yield ("planes", h[:3])
 
 
 @family("C09", "angle", enum_angle)
@@ -464,7 +477,7 @@ def case_angle(ctx, cfg):
         return
     if kind == "lines2d":
         l = G.Line(np.array(a, dtype=float))
-        for m_ in lattice(3, 1):
+        for m_ in list(lattice(3, 1)) + NEAR_LINES2:
             if not any(m_[:2]) or X.irank([list(a), list(m_)]) < 2:
                 continue
             m = G.Line(np.array(m_, dtype=float) * -2)
@@ -486,7 +499,7 @@ def case_angle(ctx, cfg):
                 return
         return
     if kind == "planes":
-        for m_ in lattice(3, 1):
+        for m_ in list(lattice(3, 1)) + [h[:3] for h in NEAR_PLANES]:
             if X.irank([list(a), list(m_)]) < 2:
                 continue
             for c1, c2 in ((0, 0), (1, -2)):
